@@ -32,6 +32,12 @@ Fixpoint rep_levels (f : nat -> list nat) (n k mn : nat) (s : list nat) : list n
   | S n' => rep_levels f n' (S k) mn (flat_step f s)
   end.
 
+(* f tabulated on i, i+1, .., i+n-1: the body of a repetition is evaluated once
+   per position instead of once per position and level *)
+Definition tabulate (f : nat -> list nat) (i n : nat) : nat -> list nat :=
+  let tab := map f (seq i n) in
+  fun x => if Nat.ltb x i then f x else nth (x - i) tab [].
+
 Definition rep_bound (mn : nat) (mx : option nat) (remaining : nat) : nat :=
   match mx with
   | None => mn + remaining
@@ -49,7 +55,10 @@ Fixpoint ends (nc : bool) (d : bytes) (r : re) (i : nat) : list nat :=
   | RAlt a b => dedup (ends nc d a i ++ ends nc d b i)
   | RRep r' mn mx _ =>
       if Nat.leb i (length d)
-      then dedup (rep_levels (ends nc d r') (rep_bound mn mx (length d - i)) 0 mn [i])
+      then let k := rep_bound mn mx (length d - i) in
+           let f := if Nat.leb k 4 then ends nc d r'
+                    else tabulate (ends nc d r') i (length d - i + 1) in
+           dedup (rep_levels f k 0 mn [i])
       else []
   | RAssert a => if Nat.leb i (length d) && assert_holds a d i then [i] else []
   end.
